@@ -76,9 +76,16 @@ pub fn run_handover(seed: u64, rounds: usize, backlog: usize, timeout: Duration,
         // every third round the acknowledgement is completed by a shutdown that drains the queue (status ShuttingDown) instead of
         // by the execution of the command: whoever completes it has to wake the sleeper
         let with_shutdown = round % 3 == 2;
+        let asleep = Arc::new(AtomicBool::new(false));
         if with_shutdown {
-            let cache = cache.clone();
-            std::thread::spawn(move || { std::thread::sleep(Duration::from_micros(300)); cache.shutdown(); });
+            let (cache, asleep) = (cache.clone(), asleep.clone());
+            // (the shutdown starts once the second task has gone to sleep, or after 20 ms at the latest)
+            std::thread::spawn(move || {
+                let begin = Instant::now();
+                while !asleep.load(Ordering::SeqCst) && begin.elapsed() < Duration::from_millis(20) { std::thread::yield_now(); }
+                std::thread::sleep(Duration::from_micros(200));
+                cache.shutdown();
+            });
         }
         // the task that takes over: sleeps until woken
         let sleeper = Arc::new(Unpark(std::thread::current(), std::sync::atomic::AtomicUsize::new(0)));
@@ -93,6 +100,7 @@ pub fn run_handover(seed: u64, rounds: usize, backlog: usize, timeout: Duration,
                 Poll::Ready(status) => break verif::status_code(&status),
                 Poll::Pending => {
                     saw_pending = true;
+                    asleep.store(true, Ordering::SeqCst);
                     let woken_before = sleeper.1.load(Ordering::SeqCst);
                     let slept = Instant::now();
                     while sleeper.1.load(Ordering::SeqCst) == woken_before && slept.elapsed() < nap { std::thread::park_timeout(nap.saturating_sub(slept.elapsed())); }
@@ -115,7 +123,7 @@ pub fn run_handover(seed: u64, rounds: usize, backlog: usize, timeout: Duration,
         }
         // (a lost wake-up costs a whole nap: stop once one was seen with and one without a shutdown, or after three)
         if rescued { rescues += 1; if with_shutdown { rescued_shut = true; } else { rescued_plain = true; } }
-        if (rescued_shut && rescued_plain) || rescues >= 3 { break; }
+        if (rescued_shut && rescued_plain) || rescues >= 6 { break; }
     }
     HistOutcome { rounds, calls, stall: None }
 }
